@@ -13,7 +13,7 @@ Require Import C19.Model C19.ProofsGuard C19.gen.Guards.
 Open Scope nat_scope.
 
 Inductive verdict := VRaise | VOk (s : shape) | VOkAny.
-Inductive citem := CInt (i : Z) | CSlice (len : nat) | CTensor (sh : shape) (vals : list Z).
+Inductive citem := CInt (i : Z) | CSlice (len : nat) | CTensor (dt : idtype) (sh : shape) (vals : list Z).
 
 Inductive pairop := PAdd | PSub | PMul | PMatmul.
 
@@ -61,7 +61,7 @@ Fixpoint insert_at {A} (k : nat) (x : A) (l : list A) : list A :=
   end.
 
 Definition to_item (c : citem) : item :=
-  match c with CInt i => IInt i | CSlice n => ISlice n | CTensor sh _ => ITensor sh end.
+  match c with CInt i => IInt i | CSlice n => ISlice n | CTensor dt sh vals => ITensor dt sh vals end.
 
 (* ---------------------------------------------------------------- SPEC verdict (torch on the dense matrix) *)
 
@@ -73,11 +73,11 @@ Fixpoint items_ok (sizes : shape) (idx : list citem) : bool :=
       (match c with
        | CInt i => torch_index_ok n i
        | CSlice _ => true
-       | CTensor _ vals => forallb (torch_index_ok n) vals
+       | CTensor _ _ vals => forallb (torch_index_ok n) vals     (* value-carrying dtypes only (the harness emits no masks) *)
        end) && items_ok sizes' idx'
   end.
 Definition tensor_shapes (idx : list citem) : list shape :=
-  flat_map (fun c => match c with CTensor sh _ => [sh] | _ => [] end) idx.
+  flat_map (fun c => match c with CTensor _ sh _ => [sh] | _ => [] end) idx.
 
 (* Some true/false: accepted / refused;  shapes are compared only where the reference computes the same quantity *)
 Definition spec_accepts (a : shape) (q : query) : bool :=
